@@ -75,6 +75,16 @@ macro_rules! conc_kind {
                 _ => return None,
             })
         }
+        fn traversal(n: &N, c: &Call) -> Option<String> {
+            let show = |r: Option<N>| r.map_or("None".to_string(), |x| format!("Some({})", x.key()));
+            Some(match c.kind {
+                'B' => show(n.bfs().target(&c.b).search()),
+                'D' => show(n.dfs().target(&c.b).search()),
+                'T' => show(n.bfs().transpose().target(&c.b).search()),
+                'P' => crate::exec::fmt_keys(&n.preorder().search_nodes().iter().map(|x| *x.key()).collect::<Vec<_>>()),
+                _ => return None,
+            })
+        }
         fn degree_of(n: &N) -> usize {
             n.out_degree()
         }
@@ -86,6 +96,15 @@ macro_rules! conc_kind {
         fn more_readers(n: &N, c: &Call) -> Option<String> {
             Some(match c.kind {
                 'F' => format!("{}", n.find_adjacent(&c.b).is_some() as u8),
+                _ => return None,
+            })
+        }
+        fn traversal(n: &N, c: &Call) -> Option<String> {
+            let show = |r: Option<N>| r.map_or("None".to_string(), |x| format!("Some({})", x.key()));
+            Some(match c.kind {
+                'B' => show(n.bfs().target(&c.b).search()),
+                'D' => show(n.dfs().target(&c.b).search()),
+                'P' => crate::exec::fmt_keys(&n.order().pre().search_nodes().iter().map(|x| *x.key()).collect::<Vec<_>>()),
                 _ => return None,
             })
         }
@@ -131,6 +150,7 @@ macro_rules! conc_mod {
                     'g' => format!("{}", degree_of(&find(c.a))),
                     'o' => format!("{}", find(c.a).is_orphan() as u8),
                     'i' => fmt_list(&iter_of(&find(c.a))),
+                    'B' | 'D' | 'T' | 'P' => traversal(&find(c.a), c).unwrap_or_else(|| "bad".into()),
                     _ => more_readers(&find(c.a), c).unwrap_or_else(|| "bad".into()),
                 }
             }
